@@ -34,13 +34,13 @@ def sig(o):
 
 
 def dist_sig(d):
-    """what the text says (family, parameters) and what the object does: the value it draws at three fixed quantiles"""
+    """what the text says (family, parameters) and what the object does: the value it draws at a fixed quantile"""
     from .rng import ScriptedRNG
     m = re.match(r"\|?\s*([a-z_]+)\s*\((.*)\)\s*\|?$", str(d).strip())
     head = (m.group(1), [float(x) for x in m.group(2).split(",")]) if m else str(d)
     draws = []
     # (the discrete families go through scipy's generic quantile search: ~0.1 s per draw, thousands of objects - the three fast families only)
-    for u in ((0.137, 0.5, 0.863) if isinstance(head, tuple) and head[0] in ("uniform", "gauss", "log_normal") else ()):
+    for u in ((0.137,) if isinstance(head, tuple) and head[0] in ("uniform", "gauss", "log_normal") else ()):        # (one quantile: tens of thousands of calls)
         try:
             # (a uniform variate for scipy's quantile transform, the matching normal deviate for gauss)
             x = d.draw_mw(ScriptedRNG([], qgrid={"uniform": [u], "standard_normal": [{0.137: -1.094, 0.5: 0.0, 0.863: 1.094}[u]]}))
